@@ -4,7 +4,7 @@
    the reader pipeline of Model/Pipeline.v never returns Panic, provided the two external primitives (key
    derivation, decompressor) do not; and the entry iterator over a decoded solid stream never runs out of fuel.
    No law about the cipher is needed: D and E are arbitrary functions here (hostile data under any key). *)
-From PNA Require Import Base Crc32 Name Codec Chunk Archive Entry Flatten Cbc Ctr Pipeline EntryFacts.
+From PNA Require Import Base Crc32 Name Codec Chunk Archive Entry Flatten Cbc Ctr Pipeline ChunkFacts EntryFacts.
 Require Import List NArith Arith Lia Bool.
 Import ListNotations.
 Open Scope N_scope.
@@ -100,6 +100,21 @@ Proof.
   pose proof (inner_entries_loop_np (S (length st)) st (Nat.lt_succ_diag_r (length st))) as Hl.
   remember (inner_entries_loop (S (length st)) st) as r eqn:Hr. clear Hr.
   split; [discriminate|]. intros es f H. injection H as H1. subst r. exact Hl.
+Qed.
+
+(* SolidEntry::entries ends without error only if the decoded stream is, byte for byte, a sequence of well-formed
+   chunks with matching CRCs (C12 / C16: what a wrong key makes of a stored CTR stream is read as a clean list of
+   entries only if the garbage is such a sequence; otherwise the iterator reports an error — fix 66ed01cc) *)
+Theorem decode_solid_ok_shape e pw rbufs es :
+  decode_solid E D decompress verify e pw rbufs = Ok (es, FinOk) ->
+  exists st cs, decode_stream E D decompress verify (s_comp (so_hdr e)) (s_enc (so_hdr e)) (s_mode (so_hdr e)) (so_phsf e) pw (so_data e) rbufs = Ok st
+                /\ st = ser_chunks cs /\ Forall ChunkFacts.wf_chunk cs.
+Proof.
+  unfold decode_solid.
+  destruct (decode_stream _ _ _ _ _ _ _ _ _ _ _) as [st|k|]; cbn [bind]; [|discriminate|discriminate].
+  remember (inner_entries_loop (S (length st)) st) as r eqn:Hr.
+  intros H. injection H as H. rewrite H in Hr. symmetry in Hr. apply inner_loop_ok_shape in Hr. destruct Hr as (cs & Hs & Hf).
+  exists st, cs. repeat split; assumption.
 Qed.
 End Pipe.
 
